@@ -96,6 +96,13 @@ func (c *scriptedConn) Read(p []byte) (int, error) {
 		return serve(ev.data[:n], nil, "nil")
 	case "t":
 		return serve(nil, os.ErrDeadlineExceeded, "timeout")
+	case "td":
+		// bytes together with a deadline error (io.Reader: "may return n > 0 and a non-nil error")
+		n := len(ev.data)
+		if n > len(p) {
+			n = len(p)
+		}
+		return serve(ev.data[:n], os.ErrDeadlineExceeded, "timeout")
 	case "e":
 		n := len(ev.data)
 		if n > len(p) {
@@ -193,6 +200,8 @@ func parseScript(s string) (evs []readEv, writeFails bool, preCancel bool) {
 			evs = append(evs, readEv{kind: t})
 		case t == "cd":
 			evs = append(evs, readEv{kind: "c"})
+		case strings.HasPrefix(t, "td:"):
+			evs = append(evs, readEv{kind: "td", data: unhx(t[3:])})
 		case len(t) >= 2 && t[1] == ':':
 			evs = append(evs, readEv{kind: t[:1], data: unhx(t[2:])})
 		default:
@@ -241,6 +250,21 @@ func clientErrStr(err error) string {
 		return "err client:other"
 	}
 	return "err parse:" + errStr(err)
+}
+
+// closeBlocks reports whether Close() of the client fails to return: every path out of Do must leave the client usable
+func closeBlocks(closeFn func() error) bool {
+	ch := make(chan struct{})
+	go func() {
+		defer func() { _ = recover(); close(ch) }()
+		_ = closeFn()
+	}()
+	select {
+	case <-ch:
+		return false
+	case <-time.After(20 * time.Second):
+		return true
+	}
 }
 
 // scriptedCtx is a caller's context that ends by its DEADLINE at a moment the script chooses
@@ -321,13 +345,14 @@ func runDoOnce(kind string, hooks bool, flusher string, reqSpec string, script s
 	stalls := true
 	if len(evs) > 0 {
 		last := evs[len(evs)-1].kind
-		stalls = last == "d" || last == "t" || (last == "e" && kind == "s")
+		stalls = last == "d" || last == "t" || last == "td" || (last == "e" && kind == "s")
 	}
 	if stalls {
 		readTimeout = time.Duration(scale) * 120 * time.Millisecond
 	}
 	var resp packet.Response
 	var err error
+	closeHangs := false
 	done := make(chan struct{})
 	go func() {
 		defer func() {
@@ -357,6 +382,7 @@ func runDoOnce(kind string, hooks bool, flusher string, reqSpec string, script s
 				c = modbus.NewSerialClient(port, opts...)
 			}
 			resp, err = c.Do(ctx, req)
+			closeHangs = closeBlocks(c.Close)
 			return
 		}
 		conf := modbus.ClientConfig{
@@ -392,6 +418,7 @@ func runDoOnce(kind string, hooks bool, flusher string, reqSpec string, script s
 			}
 		}
 		resp, err = c.Do(ctx, req)
+		closeHangs = closeBlocks(c.Close)
 	}()
 	select {
 	case <-done:
@@ -412,6 +439,10 @@ func runDoOnce(kind string, hooks bool, flusher string, reqSpec string, script s
 		if i := strings.Index(outcome, " re="); i >= 0 {
 			outcome = outcome[:i]
 		}
+	}
+	if closeHangs {
+		// the call returned but left the client locked: the next use of the same client would never terminate
+		outcome = "HANG-after-return " + outcome
 	}
 	// collapse the reads after the script ended into one "stall" entry
 	conn.mu.Lock()
